@@ -138,8 +138,6 @@ def apply(st_, op):
     name = op[0]
     k = op[1] % len(st_.keys)
     key, m = st_.keys[k], st_.models[k]
-    if name == 'add_ua' and not any(u['kind'] == 'uid' for u in m.uids):
-        raise Skip()
     if name in ('add_uid', 'add_ua'):
         st_.clock += op[-1]
         t = BASE + st_.clock
